@@ -113,6 +113,9 @@ TOpen == /\ IsEvent("open")
 \* a call issued after an open that was refused: there is no channel
 TNoChan == IsEvent("nochan") /\ ~ch.open /\ UNCHANGED vars /\ LoggedUf /\ UNCHANGED k0 /\ Book(FALSE, bss, {})
 TBlk == IsEvent("blk") /\ E.ret = 0 /\ SetBlk(E.a) /\ LoggedUf /\ UNCHANGED k0 /\ Book(FALSE, bss, {})
+\* a read through the channel, and the cache switch of the backing manager: nothing the specification knows about changes
+TRead == /\ l <= Len(Tr) /\ E.e \in {"rblk", "cache"} /\ l' = l + 1 /\ ch.open /\ E.ret = 0
+         /\ UNCHANGED vars /\ LoggedUf /\ UNCHANGED k0 /\ Book(FALSE, bss, {})
 TCall == /\ l <= Len(Tr) /\ E.e \in Kinds /\ l' = l + 1
          /\ Call(E.e, E.a, E.n, E.ret = 0)
          /\ LoggedUf
@@ -133,7 +136,7 @@ TE2undo == /\ IsEvent("e2undo") /\ E.a \in {0, 1}
            /\ LoggedDev /\ LoggedUf /\ UNCHANGED k0 /\ Book(FALSE, bss, CatUndo)
 
 TraceInit == Init /\ l = 1 /\ act = {} /\ bss = {} /\ k0 = 0 /\ cat = {}
-TraceNext == TReset \/ TOpen \/ TNoChan \/ TBlk \/ TCall \/ TClose \/ TFlip \/ TUnflip \/ TTamper \/ TE2undo
+TraceNext == TReset \/ TOpen \/ TNoChan \/ TBlk \/ TRead \/ TCall \/ TClose \/ TFlip \/ TUnflip \/ TTamper \/ TE2undo
 TraceSpec == TraceInit /\ [][TraceNext]_tvars
 TraceAccepted == TLCGet("stats").diameter - 1 = Len(Tr)
 
